@@ -73,3 +73,11 @@ Definition go_split (s sep : string) : list string :=
   | String c EmptyString => split_c c s
   | _ => [s]
   end.
+
+(* strings.TrimSuffix(s, suf): cut s where what remains IS suf (only the last |suf| bytes can be) *)
+Fixpoint go_trim_suffix (suf s : string) : string :=
+  if String.eqb s suf then EmptyString
+  else match s with
+       | EmptyString => EmptyString
+       | String c s' => String c (go_trim_suffix suf s')
+       end.
